@@ -77,6 +77,11 @@ Section CrashProofs.
   Definition tmp_is (fs : node) (i : nat) (r : bytes) (c : bytes) : Prop :=
     In r (cands i) /\ stat (w_tmp i r) s0 = None /\ stat (w_tmp i r) fs = Some (EFile meta0 c).
 
+  (* what a writer that returned nil is owed: its final name holds the complete object of a writer of
+     that same name (its own, or the one a concurrent writer of the same chunk renamed over it) *)
+  Definition DoneOk (fs : node) (i : nat) : Prop :=
+    exists j, w_final j = w_final i /\ stat (w_final i) fs = Some (EFile meta0 (obj j)).
+
   Definition Wi (fs : node) (i : nat) (pc : wpc) : Prop :=
     match pc with
     | PcEnsure todo => incl todo (prefixes (w_dir i))
@@ -84,7 +89,8 @@ Section CrashProofs.
     | PcWrite r w => tmp_is fs i r (firstn w (obj i))
     | PcClose r | PcRename r => tmp_is fs i r (obj i)
     | PcFailClose r | PcFailRemove r => exists k, tmp_is fs i r (firstn k (obj i))
-    | PcDone _ => True
+    | PcDone None => DoneOk fs i
+    | PcDone (Some _) => True
     end.
 
   Definition Inv (s : cstate) : Prop :=
@@ -95,11 +101,12 @@ Section CrashProofs.
     split; [intros q; now left|]. intros i. cbn. apply incl_refl.
   Qed.
 
-  (* Wi only looks at the writer's own temp paths *)
+  (* Wi only looks at the writer's own temp paths and, once it returned nil, at its final name *)
   Lemma Wi_frame fs fs' j pc :
-    (forall r, In r (cands j) -> stat (w_tmp j r) fs' = stat (w_tmp j r) fs) -> Wi fs j pc -> Wi fs' j pc.
+    (forall r, In r (cands j) -> stat (w_tmp j r) fs' = stat (w_tmp j r) fs) ->
+    (DoneOk fs j -> DoneOk fs' j) -> Wi fs j pc -> Wi fs' j pc.
   Proof.
-    intros F. destruct pc; cbn [Wi]; try tauto.
+    intros F FD. destruct pc as [| | | | | | |[|]]; cbn [Wi]; try tauto.
     - intros (I & Z & S). split; [exact I|]. split; [exact Z|]. now rewrite F.
     - intros (I & Z & S). split; [exact I|]. split; [exact Z|]. now rewrite F.
     - intros (I & Z & S). split; [exact I|]. split; [exact Z|]. now rewrite F.
@@ -117,19 +124,23 @@ Section CrashProofs.
     (forall q, stat q fs' = if path_eqb q p && c then X else stat q fs) ->
     (c = true -> Gq fs' p) ->
     (c = true -> forall j r, j <> i -> In r (cands j) -> w_tmp j r <> p) ->
+    (c = true -> forall j, w_final j <> p) ->
     Wi fs' i pc' ->
     Inv (fs', set_pc pcs i pc').
   Proof.
-    intros [G W] U Gp Fr Wn. split; cbn [fst snd].
+    intros [G W] U Gp Fr Ff Wn. split; cbn [fst snd].
     - intros q. destruct (path_eqb q p && c) eqn:B.
       + apply andb_true_iff in B. destruct B as [B ->]. apply path_eqb_eq in B. subst q. now apply Gp.
       + apply (Gq_frame fs); [now rewrite U, B|apply G].
     - intros j. unfold set_pc. destruct (Nat.eqb j i) eqn:J.
       + apply Nat.eqb_eq in J. now subst j.
-      + apply Nat.eqb_neq in J. apply (Wi_frame fs); [|apply W].
-        intros r I. rewrite U. destruct c; [|now rewrite andb_false_r].
-        replace (path_eqb (w_tmp j r) p) with false; [reflexivity|].
-        symmetry. apply path_eqb_neq. now apply Fr.
+      + apply Nat.eqb_neq in J. apply (Wi_frame fs); [| |apply W].
+        * intros r I. rewrite U. destruct c; [|now rewrite andb_false_r].
+          replace (path_eqb (w_tmp j r) p) with false; [reflexivity|].
+          symmetry. apply path_eqb_neq. now apply Fr.
+        * intros (j' & E & S). exists j'. split; [exact E|]. rewrite U. destruct c; [|now rewrite andb_false_r].
+          replace (path_eqb (w_final j) p) with false; [exact S|].
+          symmetry. apply path_eqb_neq. now apply Ff.
   Qed.
 
   (* a step that only moves the program counter *)
@@ -161,6 +172,7 @@ Section CrashProofs.
              ++ rewrite (stat_ensure_dir' _ _ _ ED), path_eqb_refl, C. reflexivity.
              ++ now exists i.
           -- intros _ j r _ _ X. symmetry in X. exact (prefix_neq_tmp _ _ _ _ Iq X).
+          -- intros _ j X. exact (prefix_neq_final _ _ _ Iq (eq_sym X)).
           -- cbn [Wi]. intros x X. apply W. now right.
         * apply Inv_pc; [exact I|exact Logic.I].
     - (* create the temp file *)
@@ -175,6 +187,7 @@ Section CrashProofs.
           -- intros _. right. right. right. split; [exact Z|]. exists i, r, 0. split; [exact Ir|]. split; [reflexivity|].
              rewrite U, path_eqb_refl. reflexivity.
           -- intros _ j r' J Ij X. destruct (tmp_eq_inv _ _ _ _ Ij Ir X). contradiction.
+          -- intros _ j X. exact (tmp_neq_final _ _ _ (eq_sym X)).
           -- cbn [Wi]. split; [exact Ir|]. split; [exact Z|]. rewrite U, path_eqb_refl. reflexivity.
         * destruct e; intros E; inversion E; subst; clear E;
             (apply Inv_pc; [exact I|]); try exact Logic.I.
@@ -194,6 +207,7 @@ Section CrashProofs.
           -- intros _. right. right. right. split; [exact Z|]. exists i, r, w'. split; [exact Ir|]. split; [reflexivity|].
              rewrite U, path_eqb_refl. reflexivity.
           -- intros _ j r' J Ij X. destruct (tmp_eq_inv _ _ _ _ Ij Ir X). contradiction.
+          -- intros _ j X. exact (tmp_neq_final _ _ _ (eq_sym X)).
           -- cbn [Wi]. split; [exact Ir|]. split; [exact Z|]. rewrite U, path_eqb_refl. reflexivity.
       + intros E. inversion E; subst. apply Inv_pc; [exact I|]. cbn [Wi]. exists w. split; [exact Ir|]. now split.
     - (* close *)
@@ -210,13 +224,22 @@ Section CrashProofs.
         * destruct (path_eqb q (w_tmp i r)) eqn:Q2.
           -- apply path_eqb_eq in Q2. subst q. left. rewrite U, Q1, path_eqb_refl. now rewrite Z.
           -- apply (Gq_frame fs); [now rewrite U, Q1, Q2|apply G].
-      + intros j. unfold set_pc. destruct (Nat.eqb j i) eqn:J; [exact Logic.I|]. apply Nat.eqb_neq in J.
-        destruct I as [_ W0]. cbn [fst snd] in W0. apply (Wi_frame fs); [|apply W0].
-        intros r' Ij. rewrite U.
-        replace (path_eqb (w_tmp j r') (w_final i)) with false
-          by (symmetry; apply path_eqb_neq; apply tmp_neq_final).
-        replace (path_eqb (w_tmp j r') (w_tmp i r)) with false; [reflexivity|].
-        symmetry. apply path_eqb_neq. intros X. destruct (tmp_eq_inv _ _ _ _ Ij Ir X). contradiction.
+      + intros j. unfold set_pc. destruct (Nat.eqb j i) eqn:J.
+        { apply Nat.eqb_eq in J. subst j. cbn [Wi]. exists i. split; [reflexivity|].
+          rewrite U, path_eqb_refl. exact St. }
+        apply Nat.eqb_neq in J.
+        destruct I as [_ W0]. cbn [fst snd] in W0. apply (Wi_frame fs); [| |apply W0].
+        * intros r' Ij. rewrite U.
+          replace (path_eqb (w_tmp j r') (w_final i)) with false
+            by (symmetry; apply path_eqb_neq; apply tmp_neq_final).
+          replace (path_eqb (w_tmp j r') (w_tmp i r)) with false; [reflexivity|].
+          symmetry. apply path_eqb_neq. intros X. destruct (tmp_eq_inv _ _ _ _ Ij Ir X). contradiction.
+        * (* a writer of the same chunk that had already returned nil now sees this writer's object *)
+          intros (j' & E & S). destruct (path_eqb (w_final j) (w_final i)) eqn:Q.
+          -- apply path_eqb_eq in Q. exists i. split; [now symmetry|]. rewrite U, Q, path_eqb_refl. exact St.
+          -- exists j'. split; [exact E|]. rewrite U, Q.
+             replace (path_eqb (w_final j) (w_tmp i r)) with false; [exact S|].
+             symmetry. apply path_eqb_neq. intros X. exact (tmp_neq_final _ _ _ (eq_sym X)).
     - (* failed write: close *)
       intros E. inversion E; subst. apply Inv_pc; [exact I|exact W].
     - (* failed write: remove the temp file *)
@@ -227,6 +250,7 @@ Section CrashProofs.
       + intros q. rewrite andb_true_r. apply (remove_stat _ _ _ RM).
       + intros _. left. rewrite (remove_stat _ _ _ RM), path_eqb_refl. now rewrite Z.
       + intros _ j r' J Ij X. destruct (tmp_eq_inv _ _ _ _ Ij Ir X). contradiction.
+      + intros _ j X. exact (tmp_neq_final _ _ _ (eq_sym X)).
       + exact Logic.I.
     - discriminate.
   Qed.
@@ -234,6 +258,29 @@ Section CrashProofs.
   (* every crash state of every schedule satisfies the invariant *)
   Lemma crash_inv sched : Inv (run step sched (init base wd s0)).
   Proof. apply inv_run; [intros s t s'; apply step_inv|apply Inv_init]. Qed.
+
+  (* a writer that returned nil -- in particular after write errors and short writes, which only ever
+     lead to PcDone (Some EIO) -- finds a complete object under its final name, in every schedule *)
+  Lemma store_nil_complete sched i :
+    let s := run step sched (init base wd s0) in
+    snd s i = PcDone None ->
+    exists j, w_final j = w_final i /\ stat (w_final i) (fst s) = Some (EFile meta0 (obj j)).
+  Proof.
+    cbv zeta. intros D. destruct (crash_inv sched) as [_ W]. specialize (W i). rewrite D in W. exact W.
+  Qed.
+
+  Lemma store_nil_complete_id sched i :
+    (forall i, wf_id (wd_id (wd i))) ->
+    let s := run step sched (init base wd s0) in
+    snd s i = PcDone None ->
+    exists j, wd_id (wd j) = wd_id (wd i) /\ wd_unc (wd j) = wd_unc (wd i) /\
+              stat (w_final i) (fst s) = Some (EFile meta0 (obj j)).
+  Proof.
+    intros Wall. cbv zeta. intros D. destruct (store_nil_complete sched i D) as (j & E & S).
+    exists j. unfold StoreCrash.w_final, w_store in E.
+    apply name_from_id_inj in E; [|apply Wall|apply Wall]. cbn [st_unc] in E. destruct E as [E1 E2].
+    repeat split; assumption.
+  Qed.
 
   (* store_crash_atomic, path by path *)
   Lemma store_crash_paths sched q :
